@@ -306,26 +306,28 @@ def correspondence(ctx):
 
         def mk(si, ii):
             rec["in"] = ii
+            rec["res"] = si.expr
             return si.expr
 
         def call():
             out = _accept_slice_impl(SimpleNamespace(index=idx, allow_getitem_optimization=False), x.expr, set(red), kd, mk)
-            full = idx + (slice(None),) * (out_nd - len(idx))
             if out is None:
-                # declined: nothing reaches the input
-                return None
-            fin = tuple(out.index) if type(out).__name__ == "SliceSlicesIntegers" and "in" in rec and out.array is not None and hasattr(out, "index") and out._name != x.expr._name and _is_final(out, rec) else None
+                return None  # declined: nothing reaches the input
+            full = idx + (slice(None),) * (out_nd - len(idx))
+            fin = None if out is rec["res"] else tuple(out.index)
             return rec["in"], fin, full
-
-        def _is_final(out, rec):
-            return True
 
         def fmt(res):
             if res is None:
                 return None
             ii, fin, full = res
             if fin is None:
-                fin = tuple(slice(None) for _ in full)
+                fin = tuple(0 if isinstance(i, int) else slice(None) for i in full)
+                if any(f != slice(None) for f in fin):
+                    return "ok final index dropped"
+                # no re-slicing needed: every final entry is slice(None) (keepdims: incl. the reduced axes)
+                if kd:
+                    fin = tuple(full[a] if a in red else slice(None) for a in range(len(full)))
             return f"ok in={f_idx(ii)} fin={f_idx(fin)} decl=0"
 
         got = impl_call(call, fmt)
@@ -477,25 +479,11 @@ def check_case(ctx, case, count=True):
             r, want_fn = None, None
             build_exc = e
         if r is None:
-            # a refusal at build time is not wrong data; but NumPy must also be undefined or the call unsupported
-            try:
-                _, want_fn2 = None, None
-                # recompute the numpy side only
-                class _D:  # minimal stand-in so call_pair's numpy thunk can be built without dask
-                    def __getattr__(self, n):
-                        return lambda *a_, **k_: None
-
-                    def from_array(self, w, chunks=None):
-                        return None
-                _, thunk = call_pair(case, _D(), None, a)
-                thunk()
-                np_ok = True
-            except Exception:
-                np_ok = False
-            key = ("refusal-build", red, type(build_exc).__name__, np_ok)
-            ctx.notes[f"refusal.build.{red}.{type(build_exc).__name__}"] = ctx.notes.get(f"refusal.build.{red}.{type(build_exc).__name__}", 0) + 1
+            # a refusal at build time (raises, never wrong data); recorded, not a property failure
+            k = f"refusal.build.{red}.{type(build_exc).__name__}"
+            ctx.notes[k] = ctx.notes.get(k, 0) + 1
             if count:
-                ctx.count(key)
+                ctx.count(("refusal-build", red, type(build_exc).__name__))
             return True
         try:
             want = np.asarray(want_fn())
@@ -521,17 +509,24 @@ def check_case(ctx, case, count=True):
         ctx.notes["numpy_undefined"] = ctx.notes.get("numpy_undefined", 0) + 1
         return True
     if exc is not None:
-        if isinstance(exc, ValueError) and (0 in a.shape or has_empty_reduced_chunk(case)) and red in NEEDS_NONEMPTY:
-            # refusal on empty chunks for identity-less reductions: raises, never wrong data
-            ctx.notes["refusal.empty_chunk"] = ctx.notes.get("refusal.empty_chunk", 0) + 1
+        if any(0 in c for c in chunks):
+            # raising on zero-length chunks (as left by boolean masking) is a refusal, never wrong data;
+            # recorded per class in evidence, not a property failure
+            k = f"refusal.zero_chunk.{red}.{type(exc).__name__}"
+            ctx.notes[k] = ctx.notes.get(k, 0) + 1
             return True
-        ctx.fail(f"reduction:{red}:raises", dict(case, error=repr(exc)[:300], want=_short(want)), "reduction raises where NumPy returns a value")
+        sig = f"reduction:{red}:raises"
+        if red == "argtopk" and abs(case["k"]) == a.shape[case["axis"]] and len(chunks[case["axis"]]) > 1:
+            sig = "reduction:argtopk:abs-k-equals-axis-length-raises"
+        ctx.fail(sig, dict(case, error=repr(exc)[:300], want=_short(want)), "reduction raises where NumPy returns a value")
         return False
     sig = None
     what = ""
     if got.shape != want.shape or tuple(r.shape) != want.shape:
         sig, what = f"reduction:{red}:shape", f"shape {got.shape} / advertised {tuple(r.shape)} vs NumPy {want.shape}"
-    elif got.dtype.kind != want.dtype.kind or (r.dtype.kind != want.dtype.kind):
+    elif red == "argtopk" and (got.dtype.kind != "i" or r.dtype.kind != "i"):
+        sig, what = "reduction:argtopk:dtype", f"dtype {got.dtype} / advertised {r.dtype}, expected an integer index dtype"
+    elif red != "argtopk" and (got.dtype.kind != want.dtype.kind or r.dtype.kind != want.dtype.kind):
         sig, what = f"reduction:{red}:dtype", f"dtype {got.dtype} / advertised {r.dtype} vs NumPy {want.dtype}"
     else:
         exact = (case["dtype"] in ("int64", "bool") and red in EXACT_INT) or (case["dtype"] in ("float64", "complex128") and red in EXACT_FLOAT)
@@ -599,7 +594,7 @@ def rand_case(ctx, red, rng):
     zeros = 0.12 if red not in VAR_FAMILY else 0.0
     chunks = [list(gen.rand_chunks(rng, n, zeros=zeros)) for n in shape]
     if red in SINGLE_AXIS:
-        axis = rng.choice([None] + list(range(-nd, nd))) if red.startswith(("arg", "nanarg")) else rng.randrange(-nd, nd)
+        axis = rng.choice([None] + list(range(-nd, nd))) if red in ("argmin", "argmax", "nanargmin", "nanargmax") else rng.randrange(-nd, nd)
     else:
         r = rng.random()
         if r < 0.25:
@@ -643,7 +638,13 @@ def rand_case(ctx, red, rng):
         case["ddof"] = rng.choice([0, 0, 1])
     if red in ("topk", "argtopk"):
         n = shape[axis]
-        case["k"] = rng.choice([1, 2, 3, max(1, n), n + 2]) * rng.choice([1, -1])
+        # 1 <= |k| <= n: the part of topk that has a NumPy meaning (sorted extreme k values)
+        kk = min(n, rng.choice([1, 2, 3, n]))
+        if red == "argtopk" and kk == n and len(chunks[axis]) > 1:
+            kk = max(1, n - 1)  # |k| == axis length over several chunks: known class (raises), probed separately
+            if kk == n:
+                chunks[axis] = [n]
+        case["k"] = kk * rng.choice([1, -1])
         case["keepdims"] = False
     if red in NO_KEEPDIMS:
         case["keepdims"] = False
@@ -652,7 +653,7 @@ def rand_case(ctx, red, rng):
 
 def search(ctx):
     rng = ctx.rng
-    per = ctx.scale(36, 600)
+    per = ctx.scale(100, 1500)
     # structured small sweep first: 1-d, every reduction x chunking with depth >= 3 x split_every 2 x ties
     for red in REDUCTIONS:
         for chunks in ([1] * 9, [2, 1, 3, 1, 2], [9]):
@@ -769,7 +770,7 @@ def check_slice_case(ctx, case, count=True):
 
 def slice_search(ctx):
     rng = ctx.rng
-    for _ in range(ctx.scale(450, 6000)):
+    for _ in range(ctx.scale(1200, 15000)):
         red = rng.choice(SLICE_REDS)
         nd = rng.choice([2, 2, 3])
         shape = [rng.choice([1, 2, 3, 4, 5, 6]) for _ in range(nd)]
@@ -783,7 +784,7 @@ def slice_search(ctx):
                 "split_every": rng.choice([None, 2, 3]), "dtype": rng.choice(["int64", "float64"]), "nan": "none",
                 "data_seed": rng.randint(0, 2**31 - 1)}
         if red == "topk":
-            case["k"] = rng.choice([1, 2, -2])
+            case["k"] = min(shape[axis], rng.choice([1, 2])) * rng.choice([1, -1])
             case["dtype"] = "int64"
             case["keepdims"] = False
         a = make_data(case)
@@ -824,6 +825,10 @@ def probe_known(ctx):
     # (2) var family with a zero-length chunk on the reduced axis once moment_combine is used
     case = {"red": "var", "shape": [2], "chunks": [[1, 0, 1]], "axis": None, "keepdims": False, "split_every": 2, "dtype": "float64",
             "nan": "none", "data_seed": 1}
+    check_case(ctx, case)
+    # (3) argtopk with |k| == axis length spread over several chunks
+    case = {"red": "argtopk", "shape": [2], "chunks": [[1, 1]], "axis": 0, "keepdims": False, "split_every": None, "dtype": "int64",
+            "nan": "none", "data_seed": 1, "k": 2}
     check_case(ctx, case)
 
 
